@@ -120,7 +120,8 @@ def esc_class(e):
 
 
 STR_PIECES = ['abc', 'a\\nb', '\\0x', '\\x41\\x42', '\\101\\102', '\\u00e9', '\\u20ac!', '\\U0001F600', 'é', '€uro', '😀', 'z\\\\', '\\"q\\"', '', '\\x7f', '\\377', '\\?', 'tab\\there', '\\e[0m', 'mixed é \\u00e9 \\xc3\\xa9',
-              '\\\\u00e9', '\\\\U0001F600', 'a\\\\u20acb', '\\\\\\u00e9', 'C:\\\\users\\\\u1234', '\\\\x41', '\\\\\\\\u0041']
+              '\\\\u00e9', '\\\\U0001F600', 'a\\\\u20acb', '\\\\\\u00e9', 'C:\\\\users\\\\u1234', '\\\\x41', '\\\\\\\\u0041',
+              '\\08', '\\128', '\\1289', '\\3778', '\\09a', '\\18\\19', 'x\\0' '9', '\\377' '9', '\\x4g', '\\x41g', '\\1234']
 
 
 def string_cases(rng, n):
@@ -230,6 +231,9 @@ def transform(src, how):
             line = re.sub(r'(\d)(\d)', r'\1\\\n\2', line, count=1)
             out.append(line)
         return '\n'.join(out)
+    if how in ('crlf+splice', 'cr+splice'):
+        # CR LF (or lone CR) line ends *and* backslash-newlines: the backslash is followed by CR LF in the file
+        return transform(src, 'splice').replace('\n', '\r\n' if how == 'crlf+splice' else '\r')
     return src
 
 
@@ -321,7 +325,7 @@ def run(ctx):
     nbase = len(progs)
     # ---- (5) transformations of the same programs
     for i in range(nbase if ctx.tier == 'thorough' else min(nbase, 6)):
-        for how in ('bom', 'crlf', 'cr', 'splice'):
+        for how in ('bom', 'crlf', 'cr', 'splice', 'crlf+splice', 'cr+splice'):
             src, exp = progs[i]
             progs.append((transform(src, how), [(l, k.replace('C11|', 'C11|%s:' % how, 1), d) for (l, k, d) in exp]))
     results = core.pmap(run_prog, [(i, cc, work, p[0], True) for i, p in enumerate(progs)])
